@@ -65,4 +65,21 @@ theorem int_roundtrip_32 (v : Int) (h : -2147483648 ≤ v ∧ v ≤ 2147483647) 
 theorem toInt32_range (v : Int) : -2147483648 ≤ toInt32 v ∧ toInt32 v ≤ 2147483647 := by
   unfold toInt32; omega
 
+/-- out-of-range values wrap exactly like C's conversion: the result differs from the value by a multiple of 2^32 … -/
+theorem toInt32_congr (v : Int) : (toInt32 v - v) % 4294967296 = 0 := by
+  unfold toInt32; omega
+
+/-- … and it is the ONLY 32-bit value that does (so range + congruence pin the marshalled value down) -/
+theorem toInt32_unique (v w : Int) (hr : -2147483648 ≤ w ∧ w ≤ 2147483647) (hc : (w - v) % 4294967296 = 0) :
+    w = toInt32 v := by
+  unfold toInt32; omega
+
+/-- marshalling twice is marshalling once (a value returned by one foreign call can be passed to the next unchanged) -/
+theorem toInt32_idem (v : Int) : toInt32 (toInt32 v) = toInt32 v := by
+  unfold toInt32; omega
+
+/-- the four fixed `wrap` cases of tools/props/c20.py: the expected outputs there are these values (the implementation is run on them) -/
+example : toInt32 4294967301 = 5 ∧ toInt32 2147483648 = -2147483648 ∧ toInt32 (-2147483649) = 2147483647 ∧
+    toInt32 123456789012345 = -2045911175 := by decide
+
 end CbProps.C20
